@@ -35,7 +35,8 @@ REQUIRED_BUCKETS = {"quick": ["tpl:boundary", "tpl:affine", "tpl:power", "tpl:pa
                               "pd:feeds-intermediate", "validity-boundary-crossed", "lane:asan", "new-parameters:untyped",
                               "new-parameters:untyped-and-no-volume-parameter-left", "same-name-second-definition", "new-parameter-keeps-base-name",
                               "same-source-other-defaults", "magnetic", "pd:mesh>100", "pd:amplitude-entry",
-                              "translation-helper-in-extra-source-file", "translation-helper-in-extra-source-file:hollow-base"]}
+                              "translation-helper-in-extra-source-file", "translation-helper-in-extra-source-file:hollow-base",
+                              "base-is-plugin-file:base-first", "base-is-plugin-file:reparameterised-first", "base-plugin-revision:2"]}
 REQUIRED_BUCKETS["thorough"] = REQUIRED_BUCKETS["quick"]
 
 BASES = ["sphere", "cylinder", "ellipsoid", "core_shell_sphere", "hollow_cylinder", "barbell", "capped_cylinder",
@@ -69,6 +70,11 @@ def gen_cases(tier, seed):
     for j, b in enumerate(["barbell", "capped_cylinder", "pearl_necklace"]*(1 if tier == "quick" else 10)):
         cases.append({"id": "boundary/%03d" % j, "k": 3000 + j, "seed": seed, "base": b, "tpl": "boundary",
                       "group": "b%d" % j, "lane": "plain"})
+    # the base model is itself a plugin file and the reparameterisation is a second plugin file naming it; the base file is
+    # revised between loads
+    for k in range(3 if tier == "quick" else 24):
+        cases.append({"id": "plugin-base/%03d" % k, "kind": "plugin", "k": 7000 + k, "seed": seed, "base": "plugin", "tpl": "plugin",
+                      "group": "pb%d" % k, "lane": "plain", "cost": 2})
     for k in range(4 if tier == "quick" else 30):
         cases.append({"id": "asan/%04d" % k, "k": 5000 + k, "seed": seed, "base": ["cylinder", "barbell", "ellipsoid", "hollow_cylinder"][k % 4],
                       "tpl": TEMPLATES[k % len(TEMPLATES)], "group": "a%d" % (k % 4), "lane": "asan", "cost": 4})
@@ -231,7 +237,102 @@ def translate(st, newvals, basevals):
     return {k2: v2 for k2, v2 in out.items()}, env
 
 
+BASE_PLUGIN = """r\"\"\"base model of a reparameterisation (verification harness)\"\"\"
+from numpy import inf
+name = "%(name)s"
+title = "base"
+description = "base"
+category = "shape-independent"
+parameters = [["rg", "Ang", 40, [0, inf], "volume", "size"],
+              ["contrast", "1e-6/Ang^2", 2.0, [-inf, inf], "", "contrast"]]
+form_volume = \"\"\"
+    return %(vc)r*rg*rg*rg;
+    \"\"\"
+Iq = \"\"\"
+    const double qr = q*rg;
+    return square(contrast)*%(amp)r*exp(-%(dec)r*qr*qr);
+    \"\"\"
+"""
+
+REP_PLUGIN = """r\"\"\"reparameterised plugin (verification harness)\"\"\"
+from numpy import inf
+from sasmodels.core import reparameterize
+parameters = [["mass", "", 5.0e4, [0, inf], "volume", "stands for rg^3"]]
+translation = \"\"\"
+    rg = cbrt(mass)
+    \"\"\"
+model_info = reparameterize(%(base)r, parameters, translation, __file__)
+"""
+
+
+def run_plugin(case, rec):
+    from sasmodels import core as sascore, direct_model
+    k = case["k"]
+    rng = core.rng_for(case["seed"], PROP, "plugin", k)
+    d = os.path.join(os.environ.get("RTM_SCRATCH", "/tmp"), "c16plugins", "p%d_%d" % (k, case["seed"]))
+    os.makedirs(d, exist_ok=True)
+    bpath, rpath = os.path.join(d, "rtm16_base_%d.py" % k), os.path.join(d, "rtm16_rep_%d.py" % k)
+    t0 = 1_700_000_000 + 1000*k
+    order = ["base-first", "reparameterised-first"][k % 2]
+    q = [np.array([0.004, 0.011, 0.03, 0.07])]
+
+    def write_base(ver, stamp):
+        with open(bpath, "w") as f:
+            f.write(BASE_PLUGIN % dict(name="rtm16_base_%d" % k, **ver))
+        os.utime(bpath, (stamp, stamp))
+
+    def formula(ver, mass, contrast, scale, bg, weights=None):
+        pts = [(mass, 1.0)] if weights is None else weights
+        W = sum(w_ for _m, w_ in pts)
+        rgs = [m_**(1.0/3.0) for m_, _w in pts]
+        F2 = sum(w_*contrast**2*ver["amp"]*np.exp(-ver["dec"]*(q[0]*r_)**2) for (_m, w_), r_ in zip(pts, rgs))/W
+        V = sum(w_*ver["vc"]*r_**3 for (_m, w_), r_ in zip(pts, rgs))/W
+        return scale*F2/V + bg
+
+    vers = [{"vc": round(float(rng.uniform(1, 5)), 3), "amp": round(float(rng.uniform(0.5, 3)), 3), "dec": round(float(rng.uniform(0.2, 0.5)), 3)}
+            for _ in range(3)]
+    write_base(vers[0], t0)
+    with open(rpath, "w") as f:
+        f.write(REP_PLUGIN % dict(base=bpath))
+    os.utime(rpath, (t0 - 500, t0 - 500))
+    for step, ver in enumerate(vers):
+        if step:
+            write_base(ver, t0 + 100*step)
+        try:
+            if order == "base-first":
+                binfo = sascore.load_model_info(bpath)
+                rinfo = sascore.load_model_info(rpath)
+            else:
+                rinfo = sascore.load_model_info(rpath)
+                binfo = sascore.load_model_info(bpath)
+            rmodel = sascore.build_model(rinfo, platform="dll")
+        except Exception as exc:
+            rec.check("reparameterize_accepts_valid_definition", False, {"plugin": rpath, "step": step, "exception": repr(exc)[:800]})
+            return
+        mass, contrast = float(rng.uniform(2e4, 2e5)), float(rng.uniform(0.5, 4))
+        scale, bg = float(rng.uniform(0.5, 2)), float(rng.uniform(0, 0.01))
+        kr = rmodel.make_kernel(q)
+        I = np.asarray(direct_model.call_kernel(kr, {"mass": mass, "contrast": contrast, "scale": scale, "background": bg}), float)
+        exp = formula(ver, mass, contrast, scale, bg)
+        ok = core.close(I, exp, 1e-10, 1e-13)
+        ctx = {"base_plugin_version": ver, "step": step, "load_order": order, "mass": mass, "contrast": contrast}
+        rec.check("equals_base_at_translated", ok, None if ok else dict(ctx, observed=I, base_formula_now_on_disk=exp))
+        pdp = {"mass": mass, "contrast": contrast, "scale": scale, "background": bg, "mass_pd": 0.2, "mass_pd_n": 7, "mass_pd_nsigma": 2.0}
+        Ipd = np.asarray(direct_model.call_kernel(kr, pdp), float)
+        mesh = direct_model.get_mesh(rinfo, pdp, dim="1d")
+        names = [p_.name for p_ in rinfo.parameters.call_parameters]
+        col = mesh[names.index("mass")]
+        exppd = formula(ver, mass, contrast, scale, bg, weights=list(zip([float(x_) for x_ in col[1]], [float(x_) for x_ in col[2]])))
+        okp = core.close(Ipd, exppd, 1e-10, 1e-13)
+        rec.check("dispersity_is_weighted_mean_of_base", okp, None if okp else dict(ctx, observed=Ipd, expected=exppd))
+        kr.release()
+        rec.bucket("base-is-plugin-file:" + order, "base-plugin-revision:%d" % step)
+    rec.set_shape(("plugin", k, order), True)
+
+
 def run_case(case, rec):
+    if case.get("kind") == "plugin":
+        return run_plugin(case, rec)
     from sasmodels import core as sascore, direct_model
     base, k = case["base"], case["k"]
     bi = sas.info(base)
